@@ -107,11 +107,13 @@ Print Assumptions C14_incr_values_distinct.
      - whenever the key's lock is free, the facade shows exactly that register value and the cache tier holds nothing or exactly what
        the persistent tier holds;
      - no write-back is ever spawned.
-   Operations: Set/Get/Delete/AppendToList/RemoveFromList on two-tier keys, all eight on single-tier keys; callers' tier calls do not
+   Operations: Set/Get/Delete/AppendToList/RemoveFromList/SetExpiration on two-tier keys, all nine on single-tier keys — SetExpiration is the
+   facade's remaining read-modify-write on the cache tier (read the cached value, write it back): it holds the key lock from its read to its
+   write (exp_locked), never changes the register, and answers nil only when the register holds a value; callers' tier calls do not
    fail (single failures: C14_failed_cache_write_partial, C14_cache_read_error_partial). *)
 Theorem C14_no_stale_all_schedules :
   forall (c : cfg) (k : kbytes) (w : world) (ts : list thread) (sched : list nat),
-  fix_incr c = true -> fix_setnx c = true -> fix_wb c = true -> fix_list c = true ->
+  fix_incr c = true -> fix_setnx c = true -> fix_wb c = true -> fix_list c = true -> exp_locked c = true ->
   w_spawned w = [] -> w_hist w = [] -> w_locks w k = false -> coherent GenTables c w k ->
   Forall (idle_thread GenTables c k) ts ->
   let r := hrun GenTables c w ts sched in
@@ -119,14 +121,14 @@ Theorem C14_no_stale_all_schedules :
     linearized (visible GenTables c w k) (w_hist (fst r)) st /\
     (w_locks (fst r) k = false -> visible GenTables c (fst r) k = st /\ coherent GenTables c (fst r) k) /\
     w_spawned (fst r) = [].
-Proof. intros c k w ts sched Hi Hn Hw Hl. exact (lock_all_schedules_spec GenTables c Hi Hn Hw Hl k w ts sched). Qed.
+Proof. intros c k w ts sched Hi Hn Hw Hl He. exact (lock_all_schedules_spec GenTables c Hi Hn Hw Hl He k w ts sched). Qed.
 Print Assumptions C14_no_stale_all_schedules.
 
 (* the list half spelled out: callers that only append to / remove from / read one list (any key class, any schedule): the list the facade
    shows once the lock is free is the initial list with ALL completed appends and removes applied in completion order *)
 Theorem C14_list_updates_all_take_effect :
   forall (c : cfg) (k : kbytes) (w : world) (ts : list thread) (sched : list nat),
-  fix_incr c = true -> fix_setnx c = true -> fix_wb c = true -> fix_list c = true ->
+  fix_incr c = true -> fix_setnx c = true -> fix_wb c = true -> fix_list c = true -> exp_locked c = true ->
   w_spawned w = [] -> w_hist w = [] -> w_locks w k = false -> coherent GenTables c w k ->
   Forall (fun t => match t with
                    | TCaller cl => cpc cl = PIdle /\ cur cl = None /\ held cl = false /\ faults cl = [] /\
@@ -136,8 +138,19 @@ Theorem C14_list_updates_all_take_effect :
   exists st,
     linearized (visible GenTables c w k) (w_hist (fst r)) st /\
     (w_locks (fst r) k = false -> visible GenTables c (fst r) k = st).
-Proof. intros c k w ts sched Hi Hn Hw Hl Hs Hh HL Hco Hts. exact (list_updates_repaired c k w ts sched Hi Hn Hw Hl Hs Hh HL Hco Hts). Qed.
+Proof. intros c k w ts sched Hi Hn Hw Hl He Hs Hh HL Hco Hts. exact (list_updates_repaired c k w ts sched Hi Hn Hw Hl He Hs Hh HL Hco Hts). Qed.
 Print Assumptions C14_list_updates_all_take_effect.
+
+(* every read-modify-write of the facade must hold the key lock FROM ITS READ: the variant in which SetExpiration reads the cache before taking
+   the lock is refuted — it reads v9, Set(v2) completes on both tiers, it writes v9 back, the next Get returns v9 while the persistent tier holds v2 *)
+Theorem C14_setexp_read_before_lock_refuted :
+  exists sched,
+    let r := hrun GenTables cfg_exp_unlocked w_warm_user
+               [TCaller (init_caller 0 [OSetExp k_user] []); TCaller (init_caller 1 [OSet k_user (VStr 2)] []); TCaller (init_caller 2 [OGet k_user] [])] sched in
+    w_hist (fst r) = [(2, OGet k_user, RVal (VStr 9)); (0, OSetExp k_user, ROk); (1, OSet k_user (VStr 2), ROk)] /\
+    tget (fst r) TPers k_user = Some (VStr 2).
+Proof. exact setexp_read_before_lock_witness. Qed.
+Print Assumptions C14_setexp_read_before_lock_refuted.
 
 (* the code WITHOUT the key lock: the full statement, for every key class, is FALSE of the faithful model (witnesses below): *)
 Definition C14_no_stale_full_statement : Prop :=
@@ -298,7 +311,7 @@ Print Assumptions C14_cross_node_repaired_partial.
    it) — and the state stays coherent: never an older value brought back from another tier, never a value lost with its cache entry. *)
 Theorem C14_cache_loss_invisible_all_schedules :
   forall (c : cfg) (k : kbytes) (w : world) (ts : list thread) (sched : list nat),
-  fix_incr c = true -> fix_setnx c = true -> fix_wb c = true -> fix_list c = true ->
+  fix_incr c = true -> fix_setnx c = true -> fix_wb c = true -> fix_list c = true -> exp_locked c = true ->
   two_tier GenTables c k = true ->
   w_spawned w = [] -> w_hist w = [] -> w_locks w k = false -> coherent GenTables c w k ->
   Forall (idle_thread GenTables c k) ts ->
@@ -309,7 +322,7 @@ Theorem C14_cache_loss_invisible_all_schedules :
     visible GenTables c (fst r) k = st /\
     visible GenTables c (drop_cache (fst r) k) k = st /\
     coherent GenTables c (drop_cache (fst r) k) k.
-Proof. intros c k w ts sched Hi Hn Hw Hl. exact (cache_loss_invisible_all_schedules GenTables c Hi Hn Hw Hl k w ts sched). Qed.
+Proof. intros c k w ts sched Hi Hn Hw Hl He. exact (cache_loss_invisible_all_schedules GenTables c Hi Hn Hw Hl He k w ts sched). Qed.
 Print Assumptions C14_cache_loss_invisible_all_schedules.
 
 (* several nodes with cache loss, small scope (every history of <= 4 steps over writes / reads from two nodes and a cold node and loss of the
@@ -322,7 +335,7 @@ Print Assumptions C14_cross_node_cache_loss_partial.
 (* non-vacuity: concrete callers meet the hypotheses of the single-tier theorem; the witness keys have the classes claimed *)
 Theorem C14_premises_satisfiable :
   Forall (idle_thread GenTables (cfg_rep true true) k_cmap)
-         [TCaller (init_caller 0 [OGet k_cmap; OAppend k_cmap 8; ODel k_cmap] []); TCaller (init_caller 1 [OSet k_cmap (VList [1%N]); ORemove k_cmap 8] []); TWb 0 false] /\
+         [TCaller (init_caller 0 [OGet k_cmap; OAppend k_cmap 8; ODel k_cmap] []); TCaller (init_caller 1 [OSet k_cmap (VList [1%N]); ORemove k_cmap 8; OSetExp k_cmap] []); TWb 0 false] /\
   coherent GenTables (cfg_rep true true) w_cold_list k_cmap /\
   two_tier GenTables cfg_local k_temp = false /\
   Forall (thread1_ok k_temp) [TCaller (init_caller 0 [OSet k_temp (VStr 1); OGet k_temp; OIncr k_temp] []); TCaller (init_caller 1 [ODel k_temp; OSetNX k_temp (VStr 2)] []); TWb 0 false] /\
